@@ -3,7 +3,7 @@
 
      referenced : Store::get_claim_referenced_manifests_impl   (path, memo = svi.manifest_map, depth test on the path)
      checks     : Store::ingredient_checks                     (depth counter, visited set, one verify_claim per edge)
-     binding    : Store::get_hash_binding_manifest_impl        (visited set, NO depth limit)
+     binding    : Store::get_hash_binding_manifest_impl        (visited set; depth test on |visited| since fix c381c9a00)
 
    A store is an association list from manifest label to manifest; a manifest carries its ingredient
    assertions in order.  What is not modelled: redactions, assertion parsing failures (every ingredient
@@ -227,7 +227,8 @@ Record bres := BR {
   b_result : option label;
   b_fuel_out : bool;
   b_steps : nat;                    (* calls + loop iterations *)
-  b_depth : nat;                    (* recursion depth reached (number of nested calls) *)
+  b_depth : nat;                    (* recursion depth reached: nested calls that passed the depth test
+                                       (= |visited| after the insertion; the rejected call returns at once) *)
   b_visited : list label            (* the visited set at the end, newest first *)
 }.
 
@@ -236,7 +237,8 @@ Fixpoint binding (fuel : nat) (st : store) (c : label) (m : manifest) (visited :
   match fuel with
   | O => BR None true steps depth visited
   | S f =>
-    if memb c visited then BR None false (S steps) (S depth) visited
+    if MAX_INGREDIENT_DEPTH <=? length visited then BR None false (S steps) depth visited
+    else if memb c visited then BR None false (S steps) (S depth) visited
     else if negb (m_update m) && m_hashbind m then BR (Some c) false (S steps) (S depth) (c :: visited)
     else
       match bind_scan st (m_ings m) 0 with
